@@ -6,7 +6,10 @@ import io
 import sys
 
 from gunicorn.http.errors import (NoMoreData, ChunkMissingTerminator,
-                                  InvalidChunkSize)
+                                  InvalidChunkSize, LimitRequestHeaders)
+
+# chunk-size plus chunk-ext: same generous cap as for a request line
+MAX_CHUNK_SIZE_LINE = 8190
 
 
 class ChunkedReader:
@@ -45,6 +48,9 @@ class ChunkedReader:
         done = buf.getvalue()[:2] == b"\r\n"
         while idx < 0 and not done:
             self.get_data(unreader, buf)
+            # same cap as for the header block of the request head
+            if buf.tell() > self.req.max_buffer_headers:
+                raise LimitRequestHeaders("max buffer trailers")
             idx = buf.getvalue().find(b"\r\n\r\n")
             done = buf.getvalue()[:2] == b"\r\n"
         if done:
@@ -81,6 +87,9 @@ class ChunkedReader:
 
         idx = buf.getvalue().find(b"\r\n")
         while idx < 0:
+            # do not buffer an endless chunk-size line
+            if buf.tell() > MAX_CHUNK_SIZE_LINE:
+                raise InvalidChunkSize(buf.getvalue()[:32])
             self.get_data(unreader, buf)
             idx = buf.getvalue().find(b"\r\n")
 
